@@ -33,6 +33,7 @@ def run(ctx):
     ctx.guard(rule_c, ctx, ix)
     ctx.guard(rule_d, ctx, ix)
     ctx.guard(rule_e, ctx, ix)
+    ctx.guard(rule_f, ctx, ix)
 
 
 def _guard_update_external(src):
@@ -319,6 +320,77 @@ def rule_e(ctx, ix):
                detail='%s returns early ("unchanged") without comparing %s: when the same attributes become reachable through other '
                       'links (a link replaced by one with another function, a shorter chain added) the dataset keeps deriving them '
                       'through the old links' % (f.construct, what), where=where(f, early[-1]))
+
+
+def rule_f(ctx, ix):
+    """The set of links handed to discovery, the inverse of a two-way link, and the bookkeeping of the closure."""
+    R = 'C03.f'
+    ctx.describe(R, 'link set = internal + external (collections expanded); inverse link swaps ends and functions; closure bookkeeping', floor=7)
+    lm = ix.cls(LM)
+    m = lm.resolve('_links')
+    if m is None or m.fget is None:
+        raise AnalysisError('LinkManager._links vanished')
+    f = m.fget
+    rets = [unparse(r.value).replace(' ', '') for r in returns_of(f) if r.value is not None]
+    ctx.ob(R, f.construct, 'the link set is the union of the datasets\' internal links and the external links',
+           rets in (['data_links|external_links'], ['external_links|data_links']),
+           detail='LinkManager._links returns %s' % rets, where=f.where)
+    exp = False
+    for lp in [n for n in walk_no_nested(f.node) if isinstance(n, ast.For) and '_external_links' in unparse(n.iter)]:
+        for t in [n for n in lp.body if isinstance(n, ast.If) and 'LinkCollection' in unparse(n.test)]:
+            inner = [x for x in t.body if isinstance(x, ast.For) and unparse(x.iter) == unparse(lp.target)]
+            exp = bool(inner) and any(call_name(c) == 'add' for c in calls_in(inner[0])) and \
+                any(call_name(c) == 'add' for st in t.orelse for c in calls_in(st))
+    ctx.ob(R, f.construct + ' collections', 'link collections contribute each of their member links; plain links contribute themselves', exp,
+           detail='LinkManager._links no longer expands LinkCollection objects into their member links (or drops plain links)', where=f.where)
+    m = lm.resolve('_inverse_links')
+    g = m.fget if m is not None else None
+    if g is None:
+        raise AnalysisError('LinkManager._inverse_links vanished')
+    txt = ' '.join(unparse(r.value) for r in returns_of(g) if r.value is not None).replace(' ', '')
+    ctx.ob(R, g.construct, 'the inverse of every link that has one is included', 'link.inverseforlinkin' in txt and '_links' in txt and 'isnotNone' in txt,
+           detail='LinkManager._inverse_links is computed as %s' % txt, where=g.where)
+    # the inverse component link: from [to] to from[0], using the inverse function, whose inverse is the forward function
+    cl = ix.cls('glue.core.component_link.ComponentLink')
+    init = cl.resolve_func('__init__')
+    s = init.self_name
+    cs = [c for c in calls_in(init.node) if call_name(c) == 'ComponentLink']
+    ok = len(cs) == 1
+    if ok:
+        c = cs[0]
+        a = [unparse(x).replace(' ', '') for x in c.args]
+        k = {x.arg: unparse(x.value) for x in c.keywords}
+        ok = a[:2] == ['[%s._to]' % s, '%s._from[0]' % s] and k.get('using') == '%s._inverse' % s and \
+            k.get('inverse') == '%s._using' % s and k.get('inverse_component_link') == s
+    ctx.ob(R, init.construct, 'the inverse link goes from [to] to from[0], using the inverse function (and back)', ok,
+           detail='ComponentLink builds its inverse as %s: a two-way link computes the wrong direction or with the wrong function'
+                  % (unparse(cs[0]) if cs else None), where=init.where)
+    # discovery bookkeeping
+    d = ix.func('glue.core.link_manager.discover_links')
+    al = ix.func('glue.core.link_manager.accessible_links')
+    t = ' '.join(unparse(r.value) for r in returns_of(al) if r.value is not None).replace(' ', '')
+    ctx.idiom(R, al.construct, 'a link is usable when all of its inputs are known', accepted='set(l.get_from_ids())<=cids' in t,
+              absent='get_from_ids' not in t, detail_absent='accessible_links no longer tests the inputs of a link', shape=t, where=al.where)
+    loops = [n for n in walk_no_nested(d.node) if isinstance(n, ast.For) and 'accessible_links' in unparse(n.iter)]
+    if len(loops) != 1:
+        raise AnalysisError('discover_links: loop over the accessible links not recognised')
+    lp = loops[0]
+    stores = {unparse(st.targets[0]): unparse(st.value) for st in lp.body if isinstance(st, ast.Assign)}
+    adds = [c for st in lp.body if isinstance(st, ast.Expr) for c in calls_in(st) if call_name(c) == 'add']
+    ok = stores.get('depth[to_]') == 'cost' and stores.get('cid_links[to_]') == 'link' and len(adds) == 1 and unparse(adds[0].args[0]) == 'to_'
+    ctx.ob(R, d.construct, 'a newly derivable attribute is recorded with its cost, its link and as known, together', ok,
+           detail='discover_links no longer records depth[to_] = cost, cids.add(to_) and cid_links[to_] = link together: %s' % stores, where=where(d, lp))
+    skip = [n for n in lp.body if isinstance(n, ast.If) and any(isinstance(x, ast.Continue) for x in n.body)]
+    t = unparse(skip[0].test).replace(' ', '') if skip else ''
+    ctx.idiom(R, d.construct + ' shortest', 'a known attribute is re-derived only through a strictly cheaper chain',
+              accepted=t in ('to_incidsandcost>=depth[to_]', 'to_incidsanddepth[to_]<=cost'),
+              absent=not skip or 'depth' not in t,
+              detail_absent='discover_links no longer skips links that do not shorten the chain to an already known attribute: the '
+                            'chain that is installed is not a shortest one (or the closure does not terminate)', shape=t, where=where(d, lp))
+    ctx.ob(R, d.construct + ' cost', 'the cost of a chain is one more than its most expensive input',
+           any(isinstance(st, ast.Assign) and unparse(st.targets[0]) == 'cost' and unparse(st.value).replace(' ', '') == 'max([depth[f]forfinfrom_])+1'
+               for st in ast.walk(lp)),
+           detail='discover_links no longer computes cost = max(depth of inputs) + 1', where=where(d, lp), nontrivial=False)
 
 
 def _direct_loop(loop, node):
